@@ -80,6 +80,16 @@ class Lin:
     def key(self) -> Tuple:
         return (tuple(sorted((v.name, round(c, 12)) for v, c in self.terms.items())), round(self.const, 12))
 
+    # the part of sympy's expression interface the library uses on a linear expression
+    def as_coefficients_dict(self):
+        d = dict(self.terms)
+        if self.const:
+            d[1] = self.const
+        return d
+
+    def atoms(self, *types):
+        return set(self.terms)
+
     def __repr__(self):
         s = " + ".join(f"{c:g}*{v.name}" for v, c in sorted(self.terms.items(), key=lambda t: t[0].name)) or "0"
         return s + (f" + {self.const:g}" if self.const else "")
